@@ -754,6 +754,38 @@ def _payload_rule(chk, prog):
         raise AnalysisBroken("janet_thread_chan_cb: read paths not recognised (%d)" % n)
 
 
+def _recursive_rule(chk, prog):
+    """ev/select locks the channel of every clause and holds those locks while it looks at the later clauses
+    (cfun_channel_choice, checked by C08-LOCK).  Nothing stops a program from naming the same thread channel in two
+    clauses, so the same thread then locks one mutex twice: the channel mutex has to be a recursive one, or that thread
+    deadlocks on itself with the channel locked for everybody."""
+    rule = "C08-RECURSIVE"
+    chk.rule(rule, "the mutex used for channels is initialised as a recursive mutex (ev/select may lock one channel twice)")
+    full = Program.load("default", units=["abstract.c", "ev.c"])
+    fn = next((f for f in full.all_funcs() if f.name == "janet_os_mutex_init"), None)
+    if fn is None:
+        raise AnalysisBroken("janet_os_mutex_init not found")
+    chk.analysed(fn)
+    chk.instance(rule)
+    settype = [c for c in fn.calls("pthread_mutexattr_settype") if len(c.args) == 2 and "PTHREAD_MUTEX_RECURSIVE" in (c.args[1].macro_names() + [c.args[1].text()])
+               or (len(c.args) == 2 and c.args[1].v == 1)]
+    inits = [c for c in fn.calls("pthread_mutex_init") if len(c.args) == 2]
+    attr_used = any(strip_casts(c.args[1]).v != 0 for c in inits)
+    if settype and inits and attr_used:
+        chk.ok(rule, "janet_os_mutex_init: pthread_mutex_init with a PTHREAD_MUTEX_RECURSIVE attribute")
+    else:
+        chk.violation(rule, "abstract.c", fn.name, "recursive", fn.loc,
+                      "janet_os_mutex_init does not create a recursive mutex (settype RECURSIVE: %s, attribute passed to "
+                      "pthread_mutex_init: %s): (ev/select c c) on a thread channel locks the same mutex twice and the thread "
+                      "deadlocks holding the channel" % (bool(settype), attr_used))
+    # the premise: the select primitive really can hold one lock while taking another
+    chk.instance(rule)
+    ch = full.tus["ev.c"].funcs.get("cfun_channel_choice")
+    if ch is None or not ch.calls("janet_chan_lock"):
+        raise AnalysisBroken("cfun_channel_choice / janet_chan_lock not found")
+    chk.ok(rule, "premise: cfun_channel_choice takes channel locks in a loop over its clauses")
+
+
 def run(chk):   # noqa
     prog = Program.load("default")
     S = Summaries(prog)
@@ -765,3 +797,4 @@ def run(chk):   # noqa
     _msgrec_rule(chk, prog)
     _parkroot_rule(chk, prog)
     _payload_rule(chk, prog)
+    _recursive_rule(chk, prog)
